@@ -54,6 +54,7 @@ class IndexableArray(RaggedBase):
     def _get_row_subset(self, index, do_split=False):
         if isinstance(index, tuple):
             if len(index) == 0:
+                self.ravel()
                 return slice(None), self._shape
             if len(index) == 1:
                 index = index[0]
@@ -63,6 +64,7 @@ class IndexableArray(RaggedBase):
             else:
                 return self._get_row_col_subset(index[0], index[1])
         if index is Ellipsis:
+            self.ravel()
             return slice(None), self._shape
         elif isinstance(index, Number) or (isinstance(index, np.ndarray) and index.ndim == 0):
             return self._get_row(int(index))
